@@ -52,7 +52,7 @@ def run(tier):
     for lm in ('TRUE', 'FALSE'):
         for pp in ('TRUE', 'FALSE'):
             mc.append({'name': 'SmtpClient lmtp=%s pipelining=%s: all call sequences x reply classes' % (lm, pp),
-                       'module': 'SmtpClient', 'cfg': flow.write_cfg(wd, 'mc_%s_%s.cfg' % (lm, pp), MC_CFG % (lm, pp, 6 if q else 8))})
+                       'module': 'SmtpClient', 'cfg': flow.write_cfg(wd, 'mc_%s_%s.cfg' % (lm, pp), MC_CFG % (lm, pp, 6 if q else 7))})   # 8 calls: 33 min on 16 cores since the reply alphabet got the 3xx class
     return flow.standard(
         'C10', tier, mc, 'c10', 'Trace_SmtpClient', 'Trace_SmtpClient.cfg', [canary_swap, canary_starved, canary_lmtp],
         level='model_checking',
